@@ -9,6 +9,7 @@ import (
 	"errors"
 	"expvar"
 	"fmt"
+	"regexp"
 	"sort"
 	"strings"
 	"sync"
@@ -840,8 +841,16 @@ type FeedPipe struct {
 
 func (f *FeedPipe) close() { f.closed.Store(true) }
 
+// uuidRe matches random identifiers inside keys (background-process and checkpoint ids): which simulated
+// vbucket queue an event goes to must not depend on them, or the same schedule would meet different queues.
+var uuidRe = regexp.MustCompile(`[0-9a-f]{8}-[0-9a-f]{4}-[0-9a-f]{4}-[0-9a-f]{4}-[0-9a-f]{12}`)
+
 func (f *FeedPipe) vbOf(key []byte) int {
-	return int(sgbucket.VBHash(string(key), uint16(f.node.NumVB)))
+	k := string(key)
+	if len(k) >= 36 {
+		k = uuidRe.ReplaceAllString(k, "UUID")
+	}
+	return int(sgbucket.VBHash(k, uint16(f.node.NumVB)))
 }
 
 func (f *FeedPipe) enqueue(ev sgbucket.FeedEvent) {
